@@ -209,6 +209,7 @@ fn shadow_alphabet() -> Vec<(&'static str, String, bool)> {
     ]
 }
 
+#[derive(Debug)]
 enum Case {
     Auth { seq: Vec<usize>, input: usize, ign: bool },
     Acct { reply: usize, ign: bool },
@@ -378,9 +379,13 @@ pub fn run(args: &[String]) -> ! {
             }
         }
     }
+    for i in [0, cases.len() / 3, (2 * cases.len()) / 3, cases.len().saturating_sub(1)] {
+        if let Some(c) = cases.get(i) {
+            ctx.sample(json!({"case": format!("{c:?}")}));
+        }
+    }
     ctx.set("evaluations", cases.len() as u64);
     ctx.set("distinct_nontrivial", successes);
-    ctx.set("runs_that_reported_success", successes);
     ctx.set("mismatches", nbad);
     ctx.set("rule", format!("connected: every sequence of 1..={depth} daemon replies over {} kinds (every prompt, success, denied, unknown user, poll, error, 3 replies of the wrong kind, a malformed frame, a disconnect; a sequence continues only after a reply that keeps the conversation going) x 4 kinds of user input x ignore_unknown_user; account phase: {} reply kinds; no daemon: {} shadow password fields x 4 expiry settings x 4 inputs x entry present / absent x (use_first_pass, password left by an earlier module: none / right / wrong)", alpha.len(), acct_alphabet().len(), shadow_alphabet().len()));
     ctx.set("exhaustive", true);
